@@ -465,36 +465,47 @@ CLAIMED["C06"] = dict(
 CLAIMED["C02"] = dict(
     engine="tb", design_ref="6.2",
     technique="Lean 4: executable model HtmlTB of html5ever's tree builder + translator-regenerated tables "
-              "(tools/extract.py -> lean/H5V/Gen/TreeTables.lean from tag_sets.rs/data.rs/mod.rs/rules.rs on every run) "
-              "proved equal to frozen WHATWG tables (lean/H5V/Spec/TreeTables.lean) and to the model's tables + "
-              "per-mechanism spec-equivalence theorems (lean/H5V/Spec/TreeAlgo.lean: quirks mode, scope predicates, "
-              "implied end tags, reset the insertion mode, tree-construction dispatcher, attribute adjustment, Noah's Ark, "
-              "adoption-agency loop bounds) + model/code correspondence on the tb engine + differential of the real code "
-              "against the patched html5lib reference + option relations and a prefix oracle on the real code",
-    text="PARTIAL. Proved (kernel-checked, for all inputs): every table of the tree builder as regenerated from the source "
-         "equals the standard's (special category, the five scope sets, implied end tags, formatting elements, table "
-         "contexts, foster-parenting targets, integration points, the 55+3+1+2+2 quirks identifiers, SVG tag-name / SVG "
-         "attribute / MathML attribute / foreign attribute adjust tables incl. prefixes, the foreign-content break-out "
-         "lists, the 8/3/3 loop limits, the fragment tokenizer states) and the model's tables equal the regenerated "
-         "ones; the sub-algorithms listed under technique equal independent transcriptions of the standard's text (see "
-         "the theorem list in evidence; `_partial` names say what is missing). NOT proved: the per-insertion-mode rule "
-         "arms (rules.rs) as a whole — no complete independent Lean transcription of section 13.2.6 exists here. That "
-         "part is carried by (a) the differential against the patched html5lib 1.1 reference on documents and "
-         "HTML-context fragments, scripting on/off (directed families rendered as text, themed tag soup, doctype "
-         "identifiers in mixed case / truncated / extended), tree and quirks mode compared, both trees in the replay; "
-         "(b) the tb correspondence (every TreeSink call at token level, every mutation at text level) tying the model "
-         "to the code, which also covers the vocabulary on which the reference is not authoritative (template, select "
-         "family, ruby children, menuitem/isindex/command, </p> and </br> in foreign content, frameset/colgroup with mixed "
-         "text runs, noscript and non-HTML fragment contexts); (c) option relations on the real code (iframe_srcdoc "
-         "never leaves no-quirks and changes nothing else, drop_doctype changes only the doctype node, exact_errors and "
-         "the initial quirks mode of a document parse change nothing) and a direct oracle on every dump (element and "
-         "attribute prefixes are those of the standard's table). A table edit in /repo fails `Gen = Spec`; the check "
-         "names the differing row and runs inputs built for that row through the real code and the reference.",
+              "(tools/extract.py -> lean/H5V/Gen/TreeTables.lean from tag_sets.rs/data.rs/mod.rs/rules.rs on every run, "
+              "shape-checked) proved equal to frozen WHATWG tables (lean/H5V/Spec/TreeTables.lean) and to the model's "
+              "tables + per-mechanism spec-equivalence theorems against independent transcriptions of the standard "
+              "(lean/H5V/Spec/TreeAlgo.lean: quirks mode, scope predicates, implied end tags, reset the insertion mode, "
+              "tree-construction dispatcher, attribute / tag-name adjustment and foreign break-out, adoption-agency outer "
+              "loop) + model/code correspondence on the tb engine + differential of the real code against the patched "
+              "html5lib reference + option relations and a prefix oracle on the real code",
+    text="PARTIAL. Proved (kernel-checked, for all inputs; 47 theorems): (1) every table of the tree builder as "
+         "regenerated from the source equals the standard's — special category, the scope sets, implied end tags, "
+         "formatting elements, table contexts, foster-parenting targets, integration points, the 55+3+1+2+2 quirks "
+         "identifiers, SVG tag-name / SVG attribute / MathML attribute / foreign attribute adjust tables incl. prefixes, "
+         "the foreign-content break-out lists, the 8/3/3 loop limits, the fragment tokenizer states (C02_table_*) — and "
+         "the model's tables are the regenerated ones (C02_model_*); (2) the model's sub-algorithms equal the spec "
+         "functions: C02_spec_quirks_mode (doctype -> quirks mode incl. srcdoc/force-quirks), C02_spec_in_scope (default/"
+         "list-item/button/table scope over every stack), C02_spec_implied_end_tags (plain / except x / thorough, fuel "
+         "shown sufficient), C02_spec_reset_insertion_mode (fragment context, template modes, head pointer), "
+         "C02_spec_dispatcher (is_foreign = not useHtmlRules), C02_spec_adjust_attributes, "
+         "C02_spec_svg_tag_name_and_breakout, C02_spec_adoption_outer_loop (bounded loop of 8). NOT proved: Noah's Ark "
+         "push = Spec.noahPush and the adoption agency as a whole (only its loop constants and outer-loop structure; "
+         "statements kept in C02.lean's header), C02_table_body_end_ok_partial (parse-error-only table lacks rb/rtc), and "
+         "the per-insertion-mode rule arms (rules.rs) as a whole — no complete independent Lean transcription of "
+         "section 13.2.6 exists here. That part is carried by (a) the differential against the patched html5lib 1.1 "
+         "reference on documents and HTML-context fragments, scripting on/off (directed token families rendered as text, "
+         "dispatcher cover, themed tag soup, doctype identifiers in mixed case / truncated / extended; thorough tier: "
+         "0.93 M reference-compared parses, tree and quirks mode, both trees in the replay); (b) the tb correspondence "
+         "(every TreeSink call at token level, every mutation at text level) tying the model to the code, which also "
+         "covers the vocabulary on which the reference is not authoritative (template, select family, ruby children, "
+         "menuitem/isindex/command, </p> and </br> in foreign content, frameset/colgroup with mixed text runs, noscript "
+         "and non-HTML fragment contexts; 0.32 M such parses + 0.44 M correspondence-only cases); (c) option relations on "
+         "the real code (iframe_srcdoc never leaves no-quirks and changes nothing else, drop_doctype changes only the "
+         "doctype node, exact_errors and the initial quirks mode of a document parse change nothing) and a direct oracle "
+         "on every dump (element and attribute prefixes are those of the standard's table). A table edit in /repo fails "
+         "`Gen = Spec`; the check names the differing row and runs inputs built for that row through the real code and "
+         "the reference.",
     note="Trusted: Lean kernel; tools/extract.py (shape-checked regex translator); my transcription of the standard in "
-         "Spec/TreeTables.lean and Spec/TreeAlgo.lean; the model HtmlTB + the tb correspondence; html5lib 1.1 as patched "
-         "(tools/third_party/PATCHES.md) for the rule arms; Dom as the model of RcDom (C20). Parse errors are not "
-         "compared (body_end_ok lacks rb/rtc in the source: parse-error-only, C02_table_body_end_ok_partial). Defects "
-         "found and fixed through this check: F28–F36 (known_findings.json).")
+         "Spec/TreeTables.lean and Spec/TreeAlgo.lean (edition notes there: select in the scope list and no select steps "
+         "in reset-insertion-mode after the 2025 customizable-select change); the model HtmlTB + the tb correspondence; "
+         "html5lib 1.1 as patched (tools/third_party/PATCHES.md) for the rule arms; Dom as the model of RcDom (C20). "
+         "Parse errors are not compared. Defects found and fixed through this check: F28–F36 (known_findings.json); "
+         "reference deviations found and patched: xml:base, four removed SVG attributes, feDropShadow, <table> start tag "
+         "in table-part fragments.")
 
 
 def main():
